@@ -283,7 +283,7 @@ fn hostile_dir_case(sink: &mut Sink, r: &mut Rng, pool: &[KeyInfo], forced: Opti
     std::env::set_current_dir(&cwd).unwrap();
     let now = s.now;
     let text2 = text.clone();
-    let came_back = crate::proto::with_deadline(60, move || {
+    let came_back = crate::proto::with_deadline(crate::proto::DEADLINE_SECS, move || {
         hooks::set_now(Some(now));
         let r = guarded(std::panic::AssertUnwindSafe(|| {
             let block: Metablock = serde_json::from_str(&text2).unwrap();
@@ -301,7 +301,7 @@ fn hostile_dir_case(sink: &mut Sink, r: &mut Rng, pool: &[KeyInfo], forced: Opti
             let first = !HANG_REPORTED.swap(true, std::sync::atomic::Ordering::SeqCst);
             sink.stat("hostile-dir/HUNG");
             if first {
-                sink.oracle(false, "in_toto_verify did not come back within 60 seconds (it must terminate on every link directory)", &replay);
+                sink.oracle(false, "in_toto_verify did not come back within the deadline of several minutes (it must terminate on every link directory)", &replay);
             }
             return;
         }
